@@ -77,6 +77,24 @@ class Boxed:
         return f"{CLASS_EXPR.get(type(self), type(self).__name__)}({self.payload!r})"
 
 
+class ReprBroken:
+    """an object that unpickles all right but whose repr() raises AttributeError - what `check_repr` (on by default) is there to
+    notice (an instance of a class that lost attributes since it was pickled): the read then answers the default; with
+    check_repr switched off the object comes back"""
+
+    def __init__(self, payload):
+        self.payload = payload
+
+    def __eq__(self, other):
+        return type(other) is ReprBroken and other.payload == self.payload
+
+    def __hash__(self):
+        return hash(("ReprBroken", self.payload))
+
+    def __repr__(self):
+        raise AttributeError("'ReprBroken' object has no attribute 'gone'")
+
+
 # class names whose first letters are pickle opcodes that swallow what follows (I = INT line, F = FLOAT line,
 # L = LONG line, S/V = string lines, U/T/X/B/C = length-prefixed strings, c = GLOBAL, N/K/J/M/G/./) = short ops) plus
 # a non-ASCII identifier
